@@ -429,3 +429,46 @@ import re as _re_mod
 _B = r'mul\(2f64, sub\(mul\(arg1\[0_usize\], arg2\[0_usize\]\), dot\(index\(arg1, RangeFrom::RangeFrom\(1_usize\)\), index\(arg2, RangeFrom::RangeFrom\(1_usize\)\)\)\)\)'
 _re_b = _re_mod.compile(r'(lt\((%s|var:b), zero\(\)\)|le\(zero\(\), (%s|var:b)\))' % (_B, _B))
 _re_root = _re_mod.compile(r'(div\(neg\(.*\), .*\)|neg\(div\(.*\)\)|div\(.*, neg\(.*\)\))')
+
+
+def margins_definitions(rep, F, E, tag, rid):
+    """margins(z) = (distance of z from the boundary, positive part) drives the shift into the interior: for the second-order
+    cone it is z0 - |z1| over the *whole* tail (evaluated as a polynomial with a norm atom: an index slip z[2..] or a
+    quotient form that is 0/0 at the origin is not this function), for the nonnegative cone min(z) and the sum of the
+    positive parts, for the zero cone (max_value, 0)."""
+    from engine.linform import LFSplit, P_atom, P_add, P_fmt, L_atom, L_dot, L_key, P_key
+    R = rep.rule(rid, 'cone margins are the documented functions: SOC z0 - |z[1..]|, NN (min z, sum of positive parts), zero cone (max_value, 0)')
+
+    def body():
+        f = F.one(name='margins', adt='SecondOrderCone', trait='Cone')
+        I = LFSplit(F, E, f, lambda k, s: None, {})
+        st = None
+        for val, ret, st_ in I.run({'arg2': ('P', P_atom('z0'), L_atom('Z1'))}):
+            st = st_
+        ret = canon(f.sym_local(0))
+        parts = split_args(ret) if ret.startswith('tuple(') else []
+        a = I.ev(st, f.sym_local(0)) if st is not None else None
+        # evaluate the two components through the named temporaries or the tuple operands
+        al = None
+        if st is not None:
+            for k, v in st.items():
+                if k.startswith('var:') and v is not None and v[0] == 'S':
+                    pass
+        norm_atom = P_atom(('norm', L_key(L_atom('Z1'))))
+        want = P_add(P_atom('z0'), norm_atom, -1)
+        got = None
+        if len(parts) == 2 and st is not None:
+            cands = [v for k, v in st.items() if v is not None and v[0] == 'S' and v[1] == want]
+            got = want if cands else None
+        R.check(got is not None and len(parts) == 2 and parts[1] in ('max(zero(), %s)' % parts[0], 'max(%s, zero())' % parts[0]), 'soc' + tag,
+                'SecondOrderCone::margins returns %s: expected (z0 - |z[1..]|, max(0, .)) - the minimum margin decides how far the start point is '
+                'shifted into the cone' % ret[:160], f.loc())
+        g = F.one(name='margins', adt='NonnegativeCone', trait='Cone')
+        r = canon(g.sym_local(0))
+        cl = [canon(c.sym_local(0)) for c in F.closures_of.get(g.key, [])]
+        R.check(r == 'tuple(minimum(arg2), fold(iter(arg2), zero(), closure()))' and cl in (['add(arg2, max(arg3, zero()))'], ['add(arg2, max(zero(), arg3))'], ['add(max(arg3, zero()), arg2)'], ['add(max(zero(), arg3), arg2)']),
+                'nn' + tag, 'NonnegativeCone::margins returns %s with fold %s: expected (min z, sum max(z_i, 0))' % (r, cl), g.loc())
+        h = F.one(name='margins', adt='ZeroCone', trait='Cone')
+        R.check(canon(h.sym_local(0)) == 'tuple(max_value(), zero())', 'zero' + tag, 'ZeroCone::margins returns %s, expected (max_value, 0)' % canon(h.sym_local(0)), h.loc())
+
+    R.guard(body)
